@@ -2,6 +2,7 @@
 C03 — parameter and %pattern% evaluation. Property theorems only (helper lemmas live in Lemmas/).
 -/
 import GontainerModel.Lemmas.Chunk
+import GontainerModel.Lemmas.EscapeTokens
 import GontainerModel.Model.Token
 import GontainerModel.Generated.Regex
 import GontainerModel.Generated.Wiring
@@ -75,7 +76,47 @@ theorem tokenizer_pinned :
     (Generated.wiring.lookup "patternResolver").map (·.2.1) = some ["@tokenizer"] ∧
     (Generated.wiring.lookup "fnRegisterer").map (·.2.1) = some ["@tokenStrategyFactory", "@imports"] := by decide
 
+/-- what `GetParam` yields for a string parameter: tokenise the pattern (functions registered in
+`fns`), then run the emitted providers against the run-time environment `env` -/
+def evalPattern (fns : List Token.FnDef) (env : Token.Env) (p : List Char) : Except Errs Val :=
+  match (Token.tokenize fns {} (String.ofList p)).2 with
+  | .ok ts => (Token.evalTokens env ts).mapError fun e => [e]
+  | .error es => .error es
+
+/-- **any string whose every `%` is doubled evaluates to the original string** — for every string
+(empty, single- and multi-chunk, any Unicode), whatever functions are registered and whatever the
+environment is -/
+theorem escape_roundtrip (fns : List Token.FnDef) (env : Token.Env) (s : List Char) :
+    evalPattern fns env (Escape.escape s) = .ok (.str (String.ofList s)) := by
+  obtain ⟨cs, hcs, hesc, hun, hne⟩ := Escape.chunks_escape s
+  obtain ⟨toks, hfold, hsem⟩ := Escape.tokenize_fold fns {} cs hesc [] [] rfl
+  unfold evalPattern Token.tokenize
+  simp only [String.toList_ofList, hcs, hfold, List.isEmpty_nil, ↓reduceIte]
+  rw [Escape.eval_lits env toks cs hne (by simpa using hsem), hun]
+  rfl
+
+/-- **a single-chunk pattern preserves the value's type**: one token ⇒ the provider's value, unchanged -/
+theorem single_chunk_preserves_type (env : Token.Env) (t : Token.Token) :
+    Token.evalTokens env [t] = Token.evalToken env t := rfl
+
+/-- **a multi-chunk pattern concatenates the documented string casts** -/
+theorem multi_chunk_concatenates (env : Token.Env) (t1 t2 : Token.Token) (ts : List Token.Token) :
+    Token.evalTokens env (t1 :: t2 :: ts) =
+      ((t1 :: t2 :: ts).mapM (Token.evalToken env)).map fun vs => .str (String.join (vs.map Val.castToString)) := rfl
+
+/-- a failing function yields an error naming the token -/
+theorem fn_error_names_token (env : Token.Env) (t : Token.Token) (fn goFn params e : String)
+    (hs : t.sem = .call fn goFn params) (he : env.call goFn params = .error e) :
+    Token.evalToken env t = .error ("cannot execute " ++ t.raw ++ ": " ++ e) := by
+  simp [Token.evalToken, hs, he]
+
+/-- the casts used by concatenation (`exporter.CastToString`): strings as they are, booleans, nil, numbers without type -/
+theorem cast_table :
+    Val.castToString (.str "x") = "x" ∧ Val.castToString (.bool true) = "true" ∧ Val.castToString (.bool false) = "false" ∧
+    Val.castToString .null = "nil" ∧ Val.castToString (.float "1.5") = "1.5" := ⟨rfl, rfl, rfl, rfl, rfl⟩
+
 -- non-vacuity: the hypotheses are met by concrete non-trivial patterns
+example : Escape.escape ['5', '0', '%', ' ', 'o', 'f', 'f'] = ['5', '0', '%', '%', ' ', 'o', 'f', 'f'] := by decide
 example : chunks ['%','a','%',' ','b','%','%','c'] = some [['%','a','%'],[' ','b'],['%','%'],['c']] := by decide
 example : chunks ['%','a',' ','b'] = none := by decide
 example : (chunks ['a','%','%']).isSome ∧ ['a','%','%'] ≠ [] := by decide
